@@ -3,6 +3,7 @@ package main
 // C15 — key spaces (R15b, R15c), mangling (R15d), key validation (R15e).
 
 import (
+	"go/types"
 	"fmt"
 	"go/ast"
 	"strings"
@@ -395,6 +396,24 @@ func keyspaceRules(c *Ctx) {
 					fnName = fnName[:i]
 				}
 				site := fmt.Sprintf("%s%s:%s#%d", c.Cfg, fnName, op, callOrdinal(x, call))
+				if op == "GetZstd" {
+					// R15b: where the handler distinguishes kinds, a compressed read is CAS-only
+					if ke := identNamed(x, "kind"); ke != nil {
+						if t := x.Fn.Info.TypeOf(ke); t != nil && strings.HasSuffix(t.String(), "cache.EntryKind") {
+							kt, _ := base.Term(x, ke, s)
+							isCAS := s.Get("c:"+kt) != "" && s.Get("c:"+kt) == constOfKind(c, "CAS")
+							for a, v := range s.m {
+								if v == "T" && strings.HasPrefix(a, "p:#") && strings.HasSuffix(a, "=="+kt) {
+									if cv := constOfKind(c, "CAS"); cv != "" && strings.HasPrefix(a, "p:#"+cv+"==") {
+										isCAS = true
+									}
+								}
+							}
+							R.Check(isCAS, "R15b", site+":cas-only", c.P.Pos(call.Pos()), "GetZstd is called only on paths where the request's kind is CAS",
+								"a compressed read can be served for a non-CAS key space (GetZstd always reads the CAS: the answer comes from another namespace)", x.Trace()...)
+						}
+					}
+				}
 				ht, hok := base.Term(x, call.Args[hi], s)
 				viaMaybeInline := false
 				for y := x; y != nil; y = y.Parent {
@@ -508,4 +527,17 @@ func keyspaceRules(c *Ctx) {
 		}
 		R.Check(ok, "R15e", c.Cfg+key+":hash-length", c.P.Pos(fi.Decl.Pos()), key+" rejects a hash whose length is not 64 before anything else (hash[:2] cannot panic, the key cannot be shorter than its directory level)", "the leading len(hash) != sha256HashStrSize rejection was not found")
 	}
+}
+
+
+// constOfKind returns the constant value of cache.<name> (an EntryKind).
+func constOfKind(c *Ctx, name string) string {
+	for path, pkg := range c.P.All {
+		if strings.HasSuffix(path, "bazel-remote/v2/cache") {
+			if o, ok := pkg.Types.Scope().Lookup(name).(*types.Const); ok {
+				return o.Val().ExactString()
+			}
+		}
+	}
+	return ""
 }
